@@ -3,6 +3,7 @@
 package main
 
 import (
+	"strings"
 	"errors"
 	"fmt"
 	"hash/fnv"
@@ -26,11 +27,25 @@ type c19Op struct {
 	id     int
 	fail   bool
 	panics bool
+	pkind  int  // what the panicking operation panics with: a string, an error, a runtime error, a struct
+	nilres bool // returns (nil, nil): no value, no error - still one result
 }
 
 func (o c19Op) Operation() (interface{}, error) {
 	if o.panics {
+		switch o.pkind {
+		case 1:
+			panic(fmt.Errorf("op %d blew up", o.id))
+		case 2:
+			var m map[int]int
+			m[o.id] = 1 // assignment to entry in nil map: a runtime.Error
+		case 3:
+			panic(struct{ ID int }{o.id})
+		}
 		panic(fmt.Sprintf("op %d blew up", o.id))
+	}
+	if o.nilres {
+		return nil, nil
 	}
 	if o.fail {
 		return nil, fmt.Errorf("op %d failed", o.id)
@@ -46,6 +61,9 @@ type c19ProcPlan struct {
 	Procs    int  `json:"gomaxprocs"`
 	Barrier  bool `json:"park_exiting_workers_until_all_have_returned_their_token"`
 	PanicAt  int  `json:"operation_that_panics,omitempty"` // its worker turns the panic into that operation's error result and exits
+	PanicKind int   `json:"panic_value_kind,omitempty"`      // 0 string, 1 error, 2 runtime error, 3 struct
+	NilOps    []int `json:"operations_returning_nil_nil,omitempty"`
+	Batches   []int `json:"process_call_sizes,omitempty"` // how many operators each Process call submits (0 = an empty call)
 }
 
 type c19Events struct {
@@ -105,20 +123,44 @@ func c19Processor(r *obs.Run, p c19ProcPlan) {
 	w := map[string]interface{}{"plan": p}
 	queue := make(chan concurrent.Operator, p.QueueCap)
 	proc := concurrent.NewProcessor(queue, p.Buffer, p.Threads)
+	isNil := map[int]bool{}
+	for _, id := range p.NilOps {
+		isNil[id] = true
+	}
+	allIn := make(chan struct{}) // closed by the consumer once every result is in (only waited for when NilOps is set)
 	go func() {
-		for i := 0; i < p.Ops; i++ {
-			proc.Process(c19Op{id: i + 1, fail: i%5 == 3, panics: i+1 == p.PanicAt})
+		next := 0
+		submit := func(n int) {
+			var batch []concurrent.Operator
+			for ; n > 0 && next < p.Ops; n-- {
+				i := next
+				next++
+				batch = append(batch, c19Op{id: i + 1, fail: i%5 == 3 && !isNil[i+1], panics: i+1 == p.PanicAt, pkind: p.PanicKind, nilres: isNil[i+1]})
+			}
+			proc.Process(batch...)
+		}
+		for _, n := range p.Batches {
+			submit(n)
+		}
+		for next < p.Ops {
+			submit(1)
+		}
+		if len(p.NilOps) > 0 {
+			<-allIn // while the queue is open the results channel cannot be closed: an empty receive is a real result
 		}
 		proc.Close()
 	}()
 	seen := map[int]int{}
 	bad := ""
+	nilSeen := 0
 	for i := 0; i < p.Ops; i++ {
 		v, err := proc.Result()
 		switch {
 		case err != nil:
 			var id int
-			if _, e := fmt.Sscanf(err.Error(), "concurrent: processor panic: op %d blew up", &id); e == nil {
+			if p.PanicKind >= 2 && strings.HasPrefix(err.Error(), "concurrent: processor panic:") {
+				seen[p.PanicAt]++ // a runtime error or a struct value: the text does not carry the id; at most one operation panics
+			} else if _, e := fmt.Sscanf(err.Error(), "concurrent: processor panic: op %d blew up", &id); e == nil {
 				if id != p.PanicAt {
 					bad = fmt.Sprintf("operation %d does not panic, yet its result carries a panic error", id)
 				}
@@ -131,6 +173,8 @@ func c19Processor(r *obs.Run, p c19ProcPlan) {
 				}
 				seen[id]++
 			}
+		case v == nil && len(p.NilOps) > 0:
+			nilSeen++ // the queue is still open, so this is the result of an operation that returned (nil, nil)
 		case v == nil:
 			bad = fmt.Sprintf("result %d of %d is empty (nil value, nil error): the results channel was closed early or a result was lost", i, p.Ops)
 		default:
@@ -144,8 +188,15 @@ func c19Processor(r *obs.Run, p c19ProcPlan) {
 			break
 		}
 	}
+	close(allIn)
+	if bad == "" && nilSeen != len(p.NilOps) {
+		bad = fmt.Sprintf("%d empty results for %d operations returning (nil, nil)", nilSeen, len(p.NilOps))
+	}
 	if bad == "" {
 		for id := 1; id <= p.Ops; id++ {
+			if isNil[id] {
+				continue
+			}
 			if seen[id] != 1 {
 				bad = fmt.Sprintf("operation %d produced %d results", id, seen[id])
 				break
@@ -175,6 +226,12 @@ func c19Processor(r *obs.Run, p c19ProcPlan) {
 	}
 	if p.PanicAt > 0 {
 		r.Count("processor_runs_with_a_panicking_operation", 1)
+	}
+	if len(p.NilOps) > 0 {
+		r.Count("processor_runs_with_nil_nil_results", 1)
+	}
+	if len(p.Batches) > 0 {
+		r.Count("processor_runs_with_batched_process_calls", 1)
 	}
 	h, n := ev.hash()
 	r.Count("hook_events", int64(n))
@@ -611,6 +668,23 @@ func c19Case(r *obs.Run, i int) {
 			if eff >= 2 {
 				plan.PanicAt = 1 + rng.Intn(ops)
 			}
+		}
+		plan.PanicKind = rng.Intn(4)
+		if ops > 0 && plan.PanicAt == 0 && rng.Intn(4) == 0 { // one or two operations that yield neither a value nor an error
+			for k := 0; k < 1+rng.Intn(2); k++ {
+				id := 1 + rng.Intn(ops)
+				if len(plan.NilOps) == 0 || plan.NilOps[0] != id {
+					plan.NilOps = append(plan.NilOps, id)
+				}
+			}
+		}
+		for left := ops; left > 0 && rng.Intn(2) == 0; { // Process is variadic: calls with none, one, two, many operators
+			n := []int{0, 1, 2, eff + 1, left}[rng.Intn(5)]
+			if n > left {
+				n = left
+			}
+			plan.Batches = append(plan.Batches, n)
+			left -= n
 		}
 		c19Processor(r, plan)
 	case 2:
